@@ -6,6 +6,7 @@ import EaselModel.Vec.XReal
 import EaselModel.Vec.Rounded
 import EaselModel.Vec.Kahan
 import EaselModel.Vec.Mat
+import EaselModel.Vec.GenOrder
 /-! # C20 — vector and SIMD numeric kernels compute their definition for every input
 
 Property theorems only (proofs are glue on the lemmas of `Simd/Lemmas.lean`, `Simd/LogExpLemmas.lean`, `Vec/Real.lean`, `Vec/XReal.lean`).
@@ -248,5 +249,195 @@ theorem mat_cell_in_block (M N i j : Nat) (hi : i < M) (hj : j < N) : Mat.cell M
 theorem mat_cell_inj (N i j i' j' : Nat) (hj : j < N) (hj' : j' < N) (h : i * N + j = i' * N + j') : i = i' ∧ j = j' :=
   Mat.cell_inj N i j i' j' hj hj' h
 theorem mat_cell_surj (M N k : Nat) (hk : k < M * N) : ∃ i j, i < M ∧ j < N ∧ Mat.cell M N i j = some k := Mat.cell_surj M N k hk
+
+/-! ## D. the routines of esl_vectorops.c / esl_matrixops.c as REGENERATED from the working tree (`Vec.Gen.*`,
+    translate/vec2lean.py): bounds-checked array loops in the `Option` monad (`none` = fault: out-of-bounds access or signed
+    overflow).  `int` = `Int32`, `int64_t` = `Int64` with their whole ranges; `v.size` is the `n` argument. -/
+section generated
+open EaselModel.Vec.Gen
+
+/-- the `int` comparator handed to `qsort` is the three-way comparison of the integer values on ALL of `int` — in particular for
+    entries further apart than 2^31, where the idiom `return x1 - x2` is wrong -/
+theorem gen_cmp_int (a b : Int32) :
+    (qsort_IIncreasing a b < 0 ↔ a.toInt < b.toInt) ∧ (qsort_IIncreasing a b = 0 ↔ a = b) ∧ (0 < qsort_IIncreasing a b ↔ b.toInt < a.toInt) := by
+  simpa only [Int32.lt_iff_toInt_lt] using Vec.cmp_incr_spec a b
+theorem gen_cmp_int_decr (a b : Int32) :
+    (qsort_IDecreasing a b < 0 ↔ b.toInt < a.toInt) ∧ (qsort_IDecreasing a b = 0 ↔ a = b) ∧ (0 < qsort_IDecreasing a b ↔ a.toInt < b.toInt) := by
+  simpa only [Int32.lt_iff_toInt_lt] using Vec.cmp_decr_spec a b
+theorem gen_cmp_int64 (a b : Int64) :
+    (qsort_LIncreasing a b < 0 ↔ a.toInt < b.toInt) ∧ (qsort_LIncreasing a b = 0 ↔ a = b) ∧ (0 < qsort_LIncreasing a b ↔ b.toInt < a.toInt) := by
+  have h : qsort_LIncreasing a b = qsort_IIncreasing a b := rfl
+  rw [h]; simpa only [Int64.lt_iff_toInt_lt] using Vec.cmp_incr_spec a b
+theorem gen_cmp_int64_decr (a b : Int64) :
+    (qsort_LDecreasing a b < 0 ↔ b.toInt < a.toInt) ∧ (qsort_LDecreasing a b = 0 ↔ a = b) ∧ (0 < qsort_LDecreasing a b ↔ a.toInt < b.toInt) := by
+  have h : qsort_LDecreasing a b = qsort_IDecreasing a b := rfl
+  rw [h]; simpa only [Int64.lt_iff_toInt_lt] using Vec.cmp_decr_spec a b
+
+/-- `esl_vec_{I,L,D,F}Sort{Increasing,Decreasing}`: an ordered permutation, for every vector (`ℝ` for the floating routines) -/
+theorem gen_ISortIncreasing (v : Array Int32) :
+    ∃ w, esl_vec_ISortIncreasing v v.size = some w ∧ w.toList.Perm v.toList ∧ w.toList.Pairwise (· ≤ ·) := Vec.gen_sortIncreasing v
+theorem gen_ISortDecreasing (v : Array Int32) :
+    ∃ w, esl_vec_ISortDecreasing v v.size = some w ∧ w.toList.Perm v.toList ∧ w.toList.Pairwise (· ≥ ·) := Vec.gen_sortDecreasing v
+theorem gen_LSortIncreasing (v : Array Int64) :
+    ∃ w, esl_vec_LSortIncreasing v v.size = some w ∧ w.toList.Perm v.toList ∧ w.toList.Pairwise (· ≤ ·) := Vec.gen_sortIncreasing v
+theorem gen_LSortDecreasing (v : Array Int64) :
+    ∃ w, esl_vec_LSortDecreasing v v.size = some w ∧ w.toList.Perm v.toList ∧ w.toList.Pairwise (· ≥ ·) := Vec.gen_sortDecreasing v
+theorem gen_DSortIncreasing (v : Array ℝ) :
+    ∃ w, esl_vec_DSortIncreasing v v.size = some w ∧ w.toList.Perm v.toList ∧ w.toList.Pairwise (· ≤ ·) := Vec.gen_sortIncreasing v
+theorem gen_DSortDecreasing (v : Array ℝ) :
+    ∃ w, esl_vec_DSortDecreasing v v.size = some w ∧ w.toList.Perm v.toList ∧ w.toList.Pairwise (· ≥ ·) := Vec.gen_sortDecreasing v
+theorem gen_FSortIncreasing (v : Array ℝ) :
+    ∃ w, esl_vec_FSortIncreasing v v.size = some w ∧ w.toList.Perm v.toList ∧ w.toList.Pairwise (· ≤ ·) := Vec.gen_sortIncreasing v
+theorem gen_FSortDecreasing (v : Array ℝ) :
+    ∃ w, esl_vec_FSortDecreasing v v.size = some w ∧ w.toList.Perm v.toList ∧ w.toList.Pairwise (· ≥ ·) := Vec.gen_sortDecreasing v
+example : (2147483647 : Int32) ≥ (-2147483648 : Int32) := by decide
+
+/-- `Max` / `Min`: for every element type the generated loop IS `vmax` / `vmin` of the list of cells (so it faults exactly on the
+    empty vector); on a linear order that is a member of the vector bounding every entry -/
+theorem gen_max_eq {α : Type} [CElem α] (v : Array α) :
+    esl_vec_IMax v v.size = vmax v.toList ∧ esl_vec_LMax v v.size = vmax v.toList ∧ esl_vec_DMax v v.size = vmax v.toList ∧
+      esl_vec_FMax v v.size = vmax v.toList := ⟨Vec.gen_max v, Vec.gen_max v, Vec.gen_max v, Vec.gen_max v⟩
+theorem gen_min_eq {α : Type} [CElem α] (v : Array α) :
+    esl_vec_IMin v v.size = vmin v.toList ∧ esl_vec_LMin v v.size = vmin v.toList ∧ esl_vec_DMin v v.size = vmin v.toList ∧
+      esl_vec_FMin v v.size = vmin v.toList := ⟨Vec.gen_min v, Vec.gen_min v, Vec.gen_min v, Vec.gen_min v⟩
+theorem gen_IMax (v : Array Int32) (h : v.size ≠ 0) : ∃ m, esl_vec_IMax v v.size = some m ∧ m ∈ v.toList ∧ ∀ x ∈ v.toList, x ≤ m :=
+  Vec.gen_max_spec v h
+theorem gen_IMin (v : Array Int32) (h : v.size ≠ 0) : ∃ m, esl_vec_IMin v v.size = some m ∧ m ∈ v.toList ∧ ∀ x ∈ v.toList, m ≤ x :=
+  Vec.gen_min_spec v h
+theorem gen_LMax (v : Array Int64) (h : v.size ≠ 0) : ∃ m, esl_vec_LMax v v.size = some m ∧ m ∈ v.toList ∧ ∀ x ∈ v.toList, x ≤ m :=
+  Vec.gen_max_spec v h
+theorem gen_LMin (v : Array Int64) (h : v.size ≠ 0) : ∃ m, esl_vec_LMin v v.size = some m ∧ m ∈ v.toList ∧ ∀ x ∈ v.toList, m ≤ x :=
+  Vec.gen_min_spec v h
+theorem gen_max_empty {α : Type} [CElem α] : esl_vec_IMax (#[] : Array α) 0 = none := Vec.gen_max #[]
+example : (#[1, 2] : Array Int32).size ≠ 0 := by decide
+
+/-- `esl_vec_{I,L}Sum` is wrap-free: if every partial sum is representable the result is the mathematical sum; otherwise the
+    routine's behaviour is undefined in C (the model's `none`; UBSan aborts the C side) -/
+theorem gen_ISum_exact (v : Array Int32)
+    (h : ∀ k, k ≤ v.size → -2147483648 ≤ ((v.toList.take k).map Int32.toInt).sum ∧ ((v.toList.take k).map Int32.toInt).sum ≤ 2147483647) :
+    ∃ r, esl_vec_ISum v v.size = some r ∧ r.toInt = (v.toList.map Int32.toInt).sum := Vec.gen_isum_exact v h
+theorem gen_LSum_exact (v : Array Int64)
+    (h : ∀ k, k ≤ v.size → -9223372036854775808 ≤ ((v.toList.take k).map Int64.toInt).sum ∧ ((v.toList.take k).map Int64.toInt).sum ≤ 9223372036854775807) :
+    ∃ r, esl_vec_LSum v v.size = some r ∧ r.toInt = (v.toList.map Int64.toInt).sum := Vec.gen_isum_exact v h
+theorem gen_ISum_overflow (v : Array Int32) (k : Nat) (hk : k ≤ v.size)
+    (hbad : ¬(-2147483648 ≤ ((v.toList.take k).map Int32.toInt).sum ∧ ((v.toList.take k).map Int32.toInt).sum ≤ 2147483647)) :
+    esl_vec_ISum v v.size = none := Vec.gen_isum_overflow v k hk hbad
+example : esl_vec_ISum (#[2147483647, -2147483648, 2147483647] : Array Int32) 3 = some 2147483646 := by decide
+example : esl_vec_ISum (#[2147483647, 1] : Array Int32) 2 = none := by decide
+
+/-- `esl_vec_{D,F}Sum` as regenerated is the Kahan recurrence `Vec.sum` (to which `sum_eq_real` and `kahan_rounding` apply) -/
+theorem gen_DSum {α : Type} [VNum α] (v : Array α) :
+    esl_vec_DSum v v.size = some (Vec.sum v.toList) ∧ esl_vec_FSum v v.size = some (Vec.sum v.toList) := ⟨Vec.gen_dsum v, Vec.gen_dsum v⟩
+theorem gen_DSum_real (v : Array ℝ) : esl_vec_DSum v v.size = some v.toList.sum := by rw [Vec.gen_dsum, Vec.sum_eq_real]
+
+/-- `ArgMax` / `ArgMin`: for every element type the generated loop (which re-reads `vec[best]`) returns `argmax` / `argmin` of the list
+    of cells and never faults; on `int` / `int64_t` that is the FIRST index attaining the extremum -/
+theorem gen_argmax_eq {α : Type} [CElem α] (v : Array α) :
+    esl_vec_IArgMax v v.size = some (argmax v.toList : Nat) ∧ esl_vec_LArgMax v v.size = some (argmax v.toList : Nat) ∧
+    esl_vec_DArgMax v v.size = some (argmax v.toList : Nat) ∧ esl_vec_FArgMax v v.size = some (argmax v.toList : Nat) :=
+  ⟨Vec.gen_argmax v, Vec.gen_argmax v, Vec.gen_argmax v, Vec.gen_argmax v⟩
+theorem gen_argmin_eq {α : Type} [CElem α] (v : Array α) :
+    esl_vec_IArgMin v v.size = some (argmin v.toList : Nat) ∧ esl_vec_LArgMin v v.size = some (argmin v.toList : Nat) ∧
+    esl_vec_DArgMin v v.size = some (argmin v.toList : Nat) ∧ esl_vec_FArgMin v v.size = some (argmin v.toList : Nat) :=
+  ⟨Vec.gen_argmin v, Vec.gen_argmin v, Vec.gen_argmin v, Vec.gen_argmin v⟩
+theorem gen_IArgMax (v : Array Int32) (h : v.size ≠ 0) :
+    ∃ (i : Nat) (m : Int32), esl_vec_IArgMax v v.size = some (i : Int) ∧ v.toList[i]? = some m ∧ (∀ x ∈ v.toList, x ≤ m) ∧
+      (∀ (j : Nat) (y : Int32), j < i → v.toList[j]? = some y → y < m) := by
+  obtain ⟨m, h1, h2, h3⟩ := Vec.argmax_spec v.toList (by intro e; apply h; simpa using congrArg List.length e)
+  exact ⟨_, m, Vec.gen_argmax v, h1, h2, h3⟩
+theorem gen_IArgMin (v : Array Int32) (h : v.size ≠ 0) :
+    ∃ (i : Nat) (m : Int32), esl_vec_IArgMin v v.size = some (i : Int) ∧ v.toList[i]? = some m ∧ (∀ x ∈ v.toList, m ≤ x) ∧
+      (∀ (j : Nat) (y : Int32), j < i → v.toList[j]? = some y → m < y) := by
+  obtain ⟨m, h1, h2, h3⟩ := Vec.argmin_spec v.toList (by intro e; apply h; simpa using congrArg List.length e)
+  exact ⟨_, m, Vec.gen_argmin v, h1, h2, h3⟩
+theorem gen_LArgMax (v : Array Int64) (h : v.size ≠ 0) :
+    ∃ (i : Nat) (m : Int64), esl_vec_LArgMax v v.size = some (i : Int) ∧ v.toList[i]? = some m ∧ (∀ x ∈ v.toList, x ≤ m) ∧
+      (∀ (j : Nat) (y : Int64), j < i → v.toList[j]? = some y → y < m) := by
+  obtain ⟨m, h1, h2, h3⟩ := Vec.argmax_spec v.toList (by intro e; apply h; simpa using congrArg List.length e)
+  exact ⟨_, m, Vec.gen_argmax v, h1, h2, h3⟩
+theorem gen_LArgMin (v : Array Int64) (h : v.size ≠ 0) :
+    ∃ (i : Nat) (m : Int64), esl_vec_LArgMin v v.size = some (i : Int) ∧ v.toList[i]? = some m ∧ (∀ x ∈ v.toList, m ≤ x) ∧
+      (∀ (j : Nat) (y : Int64), j < i → v.toList[j]? = some y → m < y) := by
+  obtain ⟨m, h1, h2, h3⟩ := Vec.argmin_spec v.toList (by intro e; apply h; simpa using congrArg List.length e)
+  exact ⟨_, m, Vec.gen_argmin v, h1, h2, h3⟩
+example : esl_vec_IArgMax (#[-2147483648, 2147483647, 2147483647, 0] : Array Int32) 4 = some 1 := by decide
+example : esl_vec_LArgMin (#[4294967296, 0, -4294967296, -4294967296] : Array Int64) 4 = some 2 := by decide
+
+/-- `esl_vec_{I,L}Dot` is wrap-free when every product and every partial sum is representable -/
+theorem gen_IDot_exact (v w : Array Int32) (hsz : v.size = w.size)
+    (hp : ∀ p ∈ v.toList.zip w.toList, -2147483648 ≤ p.1.toInt * p.2.toInt ∧ p.1.toInt * p.2.toInt ≤ 2147483647)
+    (h : ∀ k, k ≤ v.size → -2147483648 ≤ (((v.toList.zip w.toList).take k).map fun p => p.1.toInt * p.2.toInt).sum ∧
+      (((v.toList.zip w.toList).take k).map fun p => p.1.toInt * p.2.toInt).sum ≤ 2147483647) :
+    ∃ r, esl_vec_IDot v w v.size = some r ∧ r.toInt = ((v.toList.zip w.toList).map fun p => p.1.toInt * p.2.toInt).sum :=
+  Vec.gen_idot_exact v w hsz hp h
+theorem gen_LDot_exact (v w : Array Int64) (hsz : v.size = w.size)
+    (hp : ∀ p ∈ v.toList.zip w.toList, -9223372036854775808 ≤ p.1.toInt * p.2.toInt ∧ p.1.toInt * p.2.toInt ≤ 9223372036854775807)
+    (h : ∀ k, k ≤ v.size → -9223372036854775808 ≤ (((v.toList.zip w.toList).take k).map fun p => p.1.toInt * p.2.toInt).sum ∧
+      (((v.toList.zip w.toList).take k).map fun p => p.1.toInt * p.2.toInt).sum ≤ 9223372036854775807) :
+    ∃ r, esl_vec_LDot v w v.size = some r ∧ r.toInt = ((v.toList.zip w.toList).map fun p => p.1.toInt * p.2.toInt).sum :=
+  Vec.gen_idot_exact v w hsz hp h
+example : esl_vec_IDot (#[65536, 65536] : Array Int32) (#[32767, -32767] : Array Int32) 2 = some 0 := by decide
+example : esl_vec_IDot (#[65536] : Array Int32) (#[32768] : Array Int32) 1 = none := by decide
+/-- `esl_vec_{D,F}Dot` as regenerated is `Vec.dot` (to which `dot_eq_real` and `dot_rounding` apply) -/
+theorem gen_DDot {α : Type} [VNum α] (v w : Array α) (h : v.size = w.size) :
+    esl_vec_DDot v w v.size = some (dot v.toList w.toList) ∧ esl_vec_FDot v w v.size = some (dot v.toList w.toList) :=
+  ⟨Vec.gen_ddot v w h, Vec.gen_ddot v w h⟩
+
+/-- `Reverse` into separate storage and in place (`rev == vec`): the reversed vector, never a fault; reversing twice is the identity.
+    The same C text for `double`, `float`, `int`, `int64_t`, `char`. -/
+theorem gen_Reverse {α : Type} [CElem α] (v rev : Array α) (hr : rev.size = v.size) :
+    (∃ r, esl_vec_IReverse v rev v.size = some r ∧ r.toList = v.toList.reverse) ∧
+    (∃ r, esl_vec_LReverse v rev v.size = some r ∧ r.toList = v.toList.reverse) ∧
+    (∃ r, esl_vec_DReverse v rev v.size = some r ∧ r.toList = v.toList.reverse) ∧
+    (∃ r, esl_vec_FReverse v rev v.size = some r ∧ r.toList = v.toList.reverse) ∧
+    (∃ r, esl_vec_CReverse v rev v.size = some r ∧ r.toList = v.toList.reverse) :=
+  ⟨Vec.gen_reverse v rev hr, Vec.gen_reverse v rev hr, Vec.gen_reverse v rev hr, Vec.gen_reverse v rev hr, Vec.gen_reverse v rev hr⟩
+theorem gen_Reverse_inplace {α : Type} [CElem α] (v : Array α) :
+    (∃ r, esl_vec_IReverse_inplace v v.size = some r ∧ r.toList = v.toList.reverse) ∧
+    (∃ r, esl_vec_LReverse_inplace v v.size = some r ∧ r.toList = v.toList.reverse) ∧
+    (∃ r, esl_vec_DReverse_inplace v v.size = some r ∧ r.toList = v.toList.reverse) ∧
+    (∃ r, esl_vec_FReverse_inplace v v.size = some r ∧ r.toList = v.toList.reverse) ∧
+    (∃ r, esl_vec_CReverse_inplace v v.size = some r ∧ r.toList = v.toList.reverse) :=
+  ⟨Vec.gen_reverse_inplace v, Vec.gen_reverse_inplace v, Vec.gen_reverse_inplace v, Vec.gen_reverse_inplace v, Vec.gen_reverse_inplace v⟩
+theorem gen_Reverse_involution {α : Type} [CElem α] (v : Array α) :
+    ∃ r, esl_vec_IReverse_inplace v v.size = some r ∧ r.size = v.size ∧ esl_vec_IReverse_inplace r r.size = some v :=
+  Vec.gen_reverse_involution v
+
+/-- element-wise routines as regenerated = the list functions of the hand model (`Set`, `Copy`: any element type; the arithmetic ones:
+    any floating type, in particular ℝ) -/
+theorem gen_Set {α : Type} [CElem α] (v : Array α) (c : α) :
+    (∃ r, esl_vec_ISet v v.size c = some r ∧ r.toList = v.toList.map fun _ => c) ∧ (∃ r, esl_vec_LSet v v.size c = some r ∧ r.toList = v.toList.map fun _ => c) ∧
+    (∃ r, esl_vec_DSet v v.size c = some r ∧ r.toList = v.toList.map fun _ => c) ∧ (∃ r, esl_vec_FSet v v.size c = some r ∧ r.toList = v.toList.map fun _ => c) :=
+  ⟨Vec.gen_set v c, Vec.gen_set v c, Vec.gen_set v c, Vec.gen_set v c⟩
+theorem gen_Copy {α : Type} [CElem α] (src dest : Array α) (hd : dest.size = src.size) :
+    (∃ r, esl_vec_ICopy src src.size dest = some r ∧ r.toList = src.toList) ∧ (∃ r, esl_vec_LCopy src src.size dest = some r ∧ r.toList = src.toList) ∧
+    (∃ r, esl_vec_DCopy src src.size dest = some r ∧ r.toList = src.toList) ∧ (∃ r, esl_vec_FCopy src src.size dest = some r ∧ r.toList = src.toList) ∧
+    (∃ r, esl_vec_WCopy src src.size dest = some r ∧ r.toList = src.toList) ∧ (∃ r, esl_vec_BCopy src src.size dest = some r ∧ r.toList = src.toList) :=
+  ⟨Vec.gen_copy src dest hd, Vec.gen_copy src dest hd, Vec.gen_copy src dest hd, Vec.gen_copy src dest hd, Vec.gen_copy src dest hd, Vec.gen_copy src dest hd⟩
+theorem gen_Scale {α : Type} [VNum α] (v : Array α) (s : α) :
+    (∃ r, esl_vec_DScale v v.size s = some r ∧ r.toList = scale v.toList s) ∧ (∃ r, esl_vec_FScale v v.size s = some r ∧ r.toList = scale v.toList s) :=
+  ⟨Vec.gen_scale v s, Vec.gen_scale v s⟩
+theorem gen_Increment {α : Type} [VNum α] (v : Array α) (x : α) :
+    (∃ r, esl_vec_DIncrement v v.size x = some r ∧ r.toList = increment v.toList x) ∧
+    (∃ r, esl_vec_FIncrement v v.size x = some r ∧ r.toList = increment v.toList x) := ⟨Vec.gen_increment v x, Vec.gen_increment v x⟩
+theorem gen_Add {α : Type} [VNum α] (v w : Array α) (hw : w.size = v.size) :
+    (∃ r, esl_vec_DAdd v w v.size = some r ∧ r.toList = add v.toList w.toList) ∧ (∃ r, esl_vec_FAdd v w v.size = some r ∧ r.toList = add v.toList w.toList) :=
+  ⟨Vec.gen_add v w hw, Vec.gen_add v w hw⟩
+theorem gen_AddScaled {α : Type} [VNum α] (v w : Array α) (c : α) (hw : w.size = v.size) :
+    (∃ r, esl_vec_DAddScaled v w c v.size = some r ∧ r.toList = addScaled v.toList w.toList c) ∧
+    (∃ r, esl_vec_FAddScaled v w c v.size = some r ∧ r.toList = addScaled v.toList w.toList c) := ⟨Vec.gen_addScaled v w c hw, Vec.gen_addScaled v w c hw⟩
+example : (#[1, 2] : Array Int32).size = (#[5, 6] : Array Int32).size := rfl
+
+/-- esl_matrixops.c: `esl_mat_{D,F,I}{Set,Scale,Copy,Max}` and `esl_mat_{W,B}Copy` are the vector routines on the flat `M*N` block `A[0]` -/
+theorem gen_mat_flat {α : Type} [CElem α] (A B : Array α) (M N : Int) (c : α) :
+    esl_mat_ISet A M N c = esl_vec_ISet A (M * N) c ∧ esl_mat_IScale A M N c = esl_vec_IScale A (M * N) c ∧
+    esl_mat_ICopy A M N B = esl_vec_ICopy A (M * N) B ∧ esl_mat_IMax A M N = esl_vec_IMax A (M * N) ∧
+    esl_mat_DSet A M N c = esl_vec_DSet A (M * N) c ∧ esl_mat_DScale A M N c = esl_vec_DScale A (M * N) c ∧
+    esl_mat_DCopy A M N B = esl_vec_DCopy A (M * N) B ∧ esl_mat_DMax A M N = esl_vec_DMax A (M * N) ∧
+    esl_mat_FSet A M N c = esl_vec_FSet A (M * N) c ∧ esl_mat_FScale A M N c = esl_vec_FScale A (M * N) c ∧
+    esl_mat_FCopy A M N B = esl_vec_FCopy A (M * N) B ∧ esl_mat_FMax A M N = esl_vec_FMax A (M * N) ∧
+    esl_mat_WCopy A M N B = esl_vec_WCopy A (M * N) B ∧ esl_mat_BCopy A M N B = esl_vec_BCopy A (M * N) B := Vec.gen_mat_flat A B M N c
+
+end generated
 
 end EaselModel.Props.C20
